@@ -44,18 +44,21 @@ def showStatus (s : Stream) : String :=
   s!"cak={c.ackTr.ack} sak={v.ackTr.ack} civn={c.ackTr.ivs.length} sivn={v.ackTr.ivs.length} " ++
   s!"civ={showIvs c.ackTr.ivs} siv={showIvs v.ackTr.ivs}"
 
-def showEv {κ} (ooo : Bool) : Ev κ → Option String
-  | .new _ sid p => some s!"new {showSid sid} partial={b01 p}"
-  | .ooo _ sid c q d => if ooo then some s!"{if c then "cooo" else "sooo"} {showSid sid} seq={q} len={d.length} h={fnv d}" else none
-  | .data _ sid c pl => some s!"{if c then "cdata" else "sdata"} {showSid sid} len={pl.length} h={fnv pl}"
-  | .closed _ sid => some s!"closed {showSid sid}"
+/-- `ooo`: the out-of-order callbacks are installed; `cbs`: the stream callbacks are installed at all (they are installed
+    in the new-stream callback: without one only the follower's termination callback is observable) -/
+def showEv {κ} (ooo cbs : Bool) : Ev κ → Option String
+  | .new _ sid p => if cbs then some s!"new {showSid sid} partial={b01 p}" else none
+  | .ooo _ sid c q d => if ooo && cbs then some s!"{if c then "cooo" else "sooo"} {showSid sid} seq={q} len={d.length} h={fnv d}" else none
+  | .data _ sid c pl => if cbs then some s!"{if c then "cdata" else "sdata"} {showSid sid} len={pl.length} h={fnv pl}" else none
+  | .closed _ sid => if cbs then some s!"closed {showSid sid}" else none
   | .term _ sid r ch by_ sk => some s!"term {showSid sid} {reasonName r} chunks={ch} bytes={by_} sacked={sk}"
 
 def parseCfg (ws : List String) : Cfg × Bool :=
   ({ attach := kvNat ws "attach" 0 == 1, maxChunks := kvNat ws "maxc" 512, maxBytes := kvNat ws "maxb" 3145728,
      keepAlive := kvNat ws "ka" 300000000, acl := kvNat ws "acl" 1 == 1, maxSacked := kvNat ws "maxs" 1024,
      ackC := (kvNat ws "ack" 0) % 2 == 1, ackS := (kvNat ws "ack" 0) / 2 % 2 == 1, useSack := kvNat ws "usesack" 0 == 1,
-     ignC := (kvNat ws "ign" 0) % 2 == 1, ignS := (kvNat ws "ign" 0) / 2 % 2 == 1 }, kvNat ws "ooo" 0 == 1)
+     ignC := (kvNat ws "ign" 0) % 2 == 1, ignS := (kvNat ws "ign" 0) / 2 % 2 == 1, cbSet := kvNat ws "nocb" 0 != 1 },
+   kvNat ws "ooo" 0 == 1)
 
 /-- the SACK option of a `pkt` line: `sk=<-|edge,..>` is `TCP::sack(edges)` (then read back through the option bytes),
     `skraw=<hex>` is an option with arbitrary data -/
@@ -107,8 +110,8 @@ def step (st : MState) (line : String) : MState × String :=
   | "pkt" :: _ =>
     match parsePkt ws with
     | some p =>
-      let (F', evs) := Model.step st.cfg st.F p
-      let es := evs.filterMap (showEv st.ooo)
+      let (F', evs, threw) := Model.stepX st.cfg st.F p
+      let es := evs.filterMap (showEv st.ooo st.cfg.cbSet) ++ (if threw then ["exc callback_not_set"] else [])
       ({ st with F := F' }, (if es.isEmpty then "-" else joinWith ";" es) ++ " | " ++ findStatus F' p.v6 p.src p.sport p.dst p.dport)
     | none => (st, "bad-op")
   | _ => (st, "bad-op")
